@@ -4,6 +4,7 @@ ID = 'C07'
 LEVEL = 'proof'
 Q = 'common/lockfree_queue.h'
 BF = fields_rule(['capacity', 'mask', 'shift', 'lshift'])
+BF_OPT = fields_rule(['capacity', 'mask', 'shift', 'lshift'], min_fires=0)
 MP = [
     (r'tail\.load\([^)]*\)', 'mp_load(this, &this->b.tail)', 0), (r'head\.load\([^)]*\)', 'mp_load(this, &this->b.head)', 0),
     (r'tail\.compare_exchange_strong\((\w+), (\w+ \+ 1)\)', r'mp_cas(this, &this->b.tail, &\1, \2)', 0),
@@ -16,6 +17,12 @@ MP = [
     (r'Base::check_(full|empty)\(', r'Base_check_\1(&this->b, ', 1),
     (r'__auto_type const (\w+) = ', r'uint64_t \1 = ', 1),
 ]
+BQ_RULES = [
+    (r'\b(tail|head|write_head|read_tail)\.load\([^)]*\)', r'bq_load(this, &this->BQF_\1)', 1),
+    (r'\b(tail|head|write_head|read_tail)\.compare_exchange_strong\(\s*(\w+), ([^,]+),\s*std::memory_order_acq_rel\)', r'bq_cas(this, &this->BQF_\1, &\2, \3)', 1),
+    (r'std::min\(', 'MIN_(', 1), (r'Base::capacity', 'this->b.capacity', 1), (r'(?<![\w>.:])idx\(', 'Base_idx(&this->b, ', 1),
+    (r'(?<![\w>.])memcpy\(', 'bq_memcpy(this, ', 1), (r'(?<![\w>.])slots\[', 'this->slots[', 1), (r'sizeof\(T\)', 'sizeof(uint64_t)', 1),
+]
 PURE = ['Base_idx', 'Base_turn', 'Q_last_turn_read', 'Q_this_turn_write', 'Q_this_turn_read', 'Base_check_full', 'Base_check_empty', 'Base_check_mask_equal']
 TARGETS = [
     Target('base_ctor', Q, r'explicit LockfreeRingQueueBase\(size_t c\)\s*(?=:)', init_list=True, rules=[
@@ -23,8 +30,9 @@ TARGETS = [
         (r'\(capacity - 1\)', '(this->capacity - 1)', 1), (r'__builtin_ctzll\(capacity\)', '__builtin_ctzll(this->capacity)', 1),
         (r'sizeof\(size_t\) - shift\)', 'sizeof(size_t) - this->shift)', 1)]),
     Target('check_mask_equal', Q, r'bool check_mask_equal\(size_t x, size_t y\) const', rules=[BF]),
-    Target('check_empty', Q, r'bool check_empty\(size_t h, size_t t\) const (?=\{)'),
-    Target('check_full', Q, r'bool check_full\(size_t h, size_t t\) const', rules=[(r'(?<![\w>.])check_mask_equal\(', 'Base_check_mask_equal(this, ', 1)]),
+    Target('check_empty', Q, r'bool check_empty\(size_t h, size_t t\) const (?=\{)', rules=[(r'(?<![\w>.])(idx|turn)\(', r'Base_\1(this, ', 0), BF_OPT]),
+    Target('check_full', Q, r'bool check_full\(size_t h, size_t t\) const', rules=[(r'(?<![\w>.])check_mask_equal\(', 'Base_check_mask_equal(this, ', 1),
+        (r'(?<![\w>.])(idx|turn)\(', r'Base_\1(this, ', 0), BF_OPT]),
     Target('idx', Q, r'size_t idx\(size_t x\) const (?=\{)', rules=[BF]),
     Target('turn', Q, r'size_t turn\(size_t x\) const (?=\{)', rules=[BF]),
     Target('this_turn_write', Q, r'MarkType this_turn_write\(const uint64_t x\) const', rules=[(r'Base::turn\(', 'Base_turn(this, ', 1)]),
@@ -40,11 +48,23 @@ TARGETS = [
         marks={'count': 1, 0: dict(name='MPO', frame=['h', 'this', 'ps', 'slot', 'mark', 't', 'prevHead', 'CLAIMED', 'x', 'POP_READ_OK'],
                effects={'mp_load': ['this'], 'mp_cas': ['this', 'h', 'CLAIMED'], 'mp_store_mark': ['this', 'CLAIMED'], 'SLOT_DATA_READ': ['POP_READ_OK']},
                pure=PURE)}),
+    Target('push_batch', Q, r'size_t push_batch\(const T\* x, size_t n\)', index=0, count=2, rules=BQ_RULES,
+           marks={'count': 2, 0: dict(name='PB', frame=['rh', 'wt', 'wn', 'this', 'first_idx', 'part_length', 'wh', 'W_CLAIM', 'R_CLAIM', 'CL_POS', 'CL_N', 'N_CLAIM', 'N_PUBLISH', 'N_CPY', 'CPY_DST', 'CPY_SRC', 'CPY_LEN'],
+                                   effects={'bq_load': ['this'], 'bq_cas': ['this', 'wt', 'wh', 'W_CLAIM', 'R_CLAIM', 'CL_POS', 'CL_N', 'N_CLAIM', 'N_PUBLISH'], 'bq_memcpy': ['this', 'N_CPY', 'CPY_DST', 'CPY_SRC', 'CPY_LEN']}, pure=['Base_idx', 'MIN_']),
+                              1: dict(name='PW', frame=['wh', 'this', 'W_CLAIM', 'R_CLAIM', 'CL_POS', 'CL_N', 'N_CLAIM', 'N_PUBLISH'],
+                                   effects={'bq_cas': ['this', 'wh', 'W_CLAIM', 'R_CLAIM', 'CL_POS', 'CL_N', 'N_CLAIM', 'N_PUBLISH']}, pure=[])}),
+    Target('pop_batch', Q, r'size_t pop_batch\(T\* x, size_t n\)', index=0, count=2, rules=BQ_RULES,
+           marks={'count': 2, 0: dict(name='OB', frame=['rt', 'wh', 'rn', 'this', 'first_idx', 'part_length', 'rh', 'x', 'W_CLAIM', 'R_CLAIM', 'CL_POS', 'CL_N', 'N_CLAIM', 'N_PUBLISH', 'N_CPY', 'CPY_DST', 'CPY_SRC', 'CPY_LEN'],
+                                   effects={'bq_load': ['this'], 'bq_cas': ['this', 'rt', 'rh', 'W_CLAIM', 'R_CLAIM', 'CL_POS', 'CL_N', 'N_CLAIM', 'N_PUBLISH'], 'bq_memcpy': ['this', 'x', 'N_CPY', 'CPY_DST', 'CPY_SRC', 'CPY_LEN']}, pure=['Base_idx', 'MIN_']),
+                              1: dict(name='OW', frame=['rh', 'this', 'W_CLAIM', 'R_CLAIM', 'CL_POS', 'CL_N', 'N_CLAIM', 'N_PUBLISH'],
+                                   effects={'bq_cas': ['this', 'rh', 'W_CLAIM', 'R_CLAIM', 'CL_POS', 'CL_N', 'N_CLAIM', 'N_PUBLISH']}, pure=[])}),
 ]
-UNITS = {'ring.c': 'ring.c.in'}
+UNITS = {'ring.c': 'ring.c.in', 'batch.c': 'batch.c.in'}
 PROOFS = [
     Proof('arith', 'ring.c', 'lemma_ring_arith', kind='L', min_obligations=6),
     Proof('mpmc/push', 'ring.c', 'h_mpmc_push', kind='L', min_obligations=4, backend='cadical'),
+    Proof('batch/push', 'batch.c', 'h_push_batch', kind='L', min_obligations=6, backend='cadical'),
+    Proof('batch/pop', 'batch.c', 'h_pop_batch', kind='L', min_obligations=6, backend='cadical'),
     Proof('mpmc/pop', 'ring.c', 'h_mpmc_pop', kind='L', min_obligations=4, backend='cadical'),
 ]
 NATIVES = []
